@@ -60,6 +60,7 @@ pub fn deep_program(pattern: usize, depth: usize, width: usize) -> History {
 pub fn dispatch(kind: &str, v: &Value) -> Option<Outcome> {
     match kind {
         "history" => serde_json::from_value::<HistCase>(v.clone()).ok().map(|c| c.run()),
+        "fan-in" => serde_json::from_value::<crate::scale::FanInCase>(v.clone()).ok().map(|c| c.run()),
         _ => None,
     }
 }
@@ -96,6 +97,10 @@ pub fn campaigns(ctx: &Ctx) -> Stats {
         cfg.max_steps = t.pick(14, 30);
         let cfg = cfg.with_profile(p, t == Tier::Thorough, crate::exec::IS_F32);
         st.merge(ctx.run_prop(name, profile_total(t, p), move || recipe_strategy(12), move |r| Some(HistCase { oracle: "c01".into(), hist: elaborate(&cfg, r) })));
+    }
+    {
+        let fan = crate::scale::fan_in_cases("c01", t == Tier::Thorough);
+        st.merge(ctx.run_indexed("one-node-consumed-up-to-70001-times", fan.len() as u64, None, |i| Some(fan[i as usize].clone())));
     }
     let depths: Vec<usize> = t.pick(vec![1, 2, 3, 5, 8, 13, 21, 34, 64], vec![1, 2, 3, 5, 8, 13, 21, 34, 64, 128, 256]);
     let nd = depths.len() as u64;
